@@ -45,7 +45,7 @@ type Case struct {
 
 var (
 	routePool  = []string{"/x", "/y/{id}", "/v1/x", "/{any}", "/v2/y/{id}", "/"}
-	domainSets = [][]string{{"a.com"}, {"{sub}.b.com"}, {"a.com", "{sub}.b.com"}, {"c.com", "a.com"}}
+	domainSets = [][]string{{"a.com"}, {"{sub}.b.com"}, {"a.com", "{sub}.b.com"}, {"c.com", "a.com"}, {"{sub}.b.com", "{sub}.b.org"}, {"{ver}.b.com", "{ver}.b.org", "a.com"}}
 	verSets    = [][]string{{"v1"}, {"v2"}, {"v1", "v2"}, {"v11", "v1"}}
 	names      = []string{"r1", "r2", "r3", "r4"}
 )
@@ -55,9 +55,9 @@ func genLeaf(t *rapid.T, k int) MSpec {
 	case 0:
 		return MSpec{Kind: "hosts", Args: rapid.SampledFrom(domainSets).Draw(t, "domains")}
 	case 1:
-		return MSpec{Kind: "pathver", Args: rapid.SampledFrom(verSets).Draw(t, "pvers"), Param: rapid.SampledFrom([]string{"", fmt.Sprintf("pv%d", k)}).Draw(t, "pparam")}
+		return MSpec{Kind: "pathver", Args: rapid.SampledFrom(verSets).Draw(t, "pvers"), Param: rapid.SampledFrom([]string{"", fmt.Sprintf("pv%d", k), "ver"}).Draw(t, "pparam")}
 	case 2:
-		return MSpec{Kind: "headerver", Args: rapid.SampledFrom(verSets).Draw(t, "hvers"), Param: rapid.SampledFrom([]string{"", fmt.Sprintf("hv%d", k)}).Draw(t, "hparam")}
+		return MSpec{Kind: "headerver", Args: rapid.SampledFrom(verSets).Draw(t, "hvers"), Param: rapid.SampledFrom([]string{"", fmt.Sprintf("hv%d", k), "ver"}).Draw(t, "hparam")}
 	default:
 		return MSpec{Kind: "pathver", Args: rapid.SampledFrom(verSets).Draw(t, "pvers2"), Param: fmt.Sprintf("pw%d", k)}
 	}
@@ -109,7 +109,7 @@ func gen(t *rapid.T) Case {
 		c.Reqs = append(c.Reqs, Rq{
 			Method: rapid.SampledFrom([]string{"GET", "GET", "POST", "OPTIONS"}).Draw(t, "m"),
 			Path:   rapid.SampledFrom([]string{"/v1/x", "/v2/y/7", "/x", "/v1/v1/x", "/y/7", "/v1/zz", "/v11/x", "/v1", "/v2/v1/x", "/", "/v1/"}).Draw(t, "path"),
-			Host:   rapid.SampledFrom([]string{"a.com", "q.b.com", "c.com", "A.COM:80", "d.com", ""}).Draw(t, "host"),
+			Host:   rapid.SampledFrom([]string{"a.com", "q.b.com", "c.com", "A.COM:80", "d.com", "", "q.b.net", "q.b.org", "x.b.com.cn"}).Draw(t, "host"),
 			Accept: rapid.SampledFrom([]string{"a/b; version=v1", "", "a/b; version=v9", "a/b; version=v2", "junk;;"}).Draw(t, "accept"),
 		})
 	}
